@@ -64,7 +64,11 @@ func Record(args []string) {
 				case 2:
 					k, off := rng.Intn(5), rng.Intn(len(d)+2)
 					ev := tr.E{"k": k, "off": off}
-					guard("ReadAt", ev, func() { p := make([]byte, k); m, err := r.ReadAt(p, int64(off)); ev["bs"], ev["e"] = tr.Ints(p[:m]), en(err) })
+					guard("ReadAt", ev, func() {
+						p := make([]byte, k)
+						m, err := r.ReadAt(p, int64(off))
+						ev["bs"], ev["e"] = tr.Ints(p[:m]), en(err)
+					})
 				case 3:
 					guard("ResetR", tr.E{}, func() { r.Reset() })
 				case 4:
